@@ -441,6 +441,7 @@ pub fn shrink(cfg: &RunCfg, ops: &[Op], mode: &str, prop: &str, clause: &str) ->
             let cand_op = match cur[k] {
                 Op::GarbageBurst { node, count, len, seed } if count > 1 => Op::GarbageBurst { node, count: count / 2, len, seed },
                 Op::TrafficBurst { node, count, plen } if count > 1 => Op::TrafficBurst { node, count: count / 2, plen },
+                Op::RekeyBurst { node, count } if count > 1 => Op::RekeyBurst { node, count: count / 2 },
                 _ => break,
             };
             let mut cand = cur.clone();
@@ -490,7 +491,7 @@ pub fn shrink_cfg(cfg: &RunCfg, ops: &[Op], mode: &str, prop: &str, clause: &str
     let mut cur_ops = ops.to_vec();
     let node_of = |op: &Op| -> Option<u8> {
         match op {
-            Op::Write { node, .. } | Op::Read { node, .. } | Op::SetPsk { node, .. } | Op::Convert { node, .. } | Op::SetRecvNonce { node, .. } | Op::SetSendNonce { node, .. } | Op::Rekey { node, .. } | Op::Drop { node, .. } | Op::Dup { node, .. } | Op::Delay { node, .. } | Op::Query { node } | Op::Keygen { node } | Op::GarbageBurst { node, .. } | Op::TrafficBurst { node, .. } => Some(*node),
+            Op::Write { node, .. } | Op::Read { node, .. } | Op::SetPsk { node, .. } | Op::Convert { node, .. } | Op::SetRecvNonce { node, .. } | Op::SetSendNonce { node, .. } | Op::Rekey { node, .. } | Op::Drop { node, .. } | Op::Dup { node, .. } | Op::Delay { node, .. } | Op::Query { node } | Op::Keygen { node } | Op::GarbageBurst { node, .. } | Op::TrafficBurst { node, .. } | Op::RekeyBurst { node, .. } => Some(*node),
             Op::Epilogue => None,
         }
     };
